@@ -35,7 +35,15 @@ pub fn scenario(g: &mut Gen) -> Scenario {
         if g.rng.chance(1, 4) {
             g.partials.push("missing".into());
         }
-        let body = g.body(if i == 0 { 1 } else { 2 }, 3);
+        let mut body = g.body(if i == 0 { 1 } else { 2 }, 3);
+        // a partial's source is used as it is: a byte-order mark, blank lines or spaces at its very
+        // start or end are text like any other
+        if g.rng.chance(1, 5) {
+            body.insert(0, text(*g.rng.pick(&["\u{feff}", "\u{feff}x", "\n", " \r\n", "\u{feff}\n", "\u{fffe}"])));
+        }
+        if g.rng.chance(1, 8) {
+            body.push(text(*g.rng.pick(&["\n", " ", "\u{feff}"])));
+        }
         partials.push((name.clone(), Ok(body)));
         avail.push(name);
     }
@@ -197,12 +205,25 @@ fn metamorphic(ctx: &mut Ctx) {
         let mut b = pre1.clone();
         b.extend(t_tail.clone());
         let c = with_call(&pre2);
+        // a third caller: the same tag inside a loop (inside two nested loops) of the caller
+        let mut c2 = pre2.clone();
+        {
+            let inner = vec![text(OPEN), call.clone(), text(CLOSE)];
+            let l1 = Node::For { x: "zq".into(), rng: RangeE::Counted(lit_i(1), lit_i(1)), limit: None, offset: None, rev: false, body: inner, els: None };
+            let l2 = if g.rng.chance(1, 2) { Node::For { x: "zr".into(), rng: RangeE::Counted(lit_i(7), lit_i(7)), limit: None, offset: None, rev: false, body: vec![l1], els: None } } else { l1 };
+            c2.push(l2);
+            c2.extend(t_tail.clone());
+        }
+        let oc2 = render_text(&parser, &src_tmpl(&c2), &data);
         let oa = render_text(&parser, &src_tmpl(&a), &data);
         let ob = render_text(&parser, &src_tmpl(&b), &data);
         let oc = render_text(&parser, &src_tmpl(&c), &data);
         // DYN-NAME: one tag executed with a different name each time == the literal tags in a row
         let seq: Vec<String> = (0..(2 + g.rng.below(2))).map(|_| g.rng.pick(&avail).clone()).collect();
-        let use_include = g.rng.chance(1, 2);
+        // (an INCLUDED partial sees the caller's `forloop`, which only the dynamic variant has: partials
+        // that look at it are compared through `render` only)
+        let looks_at_loop = partials.iter().any(|(_, b)| matches!(b, Ok(b) if src_tmpl(b).contains("forloop")));
+        let use_include = !looks_at_loop && g.rng.chance(1, 2);
         let mk = |name: Expr| if use_include { Node::Include(name, vec![]) } else { Node::Render(name, RForm::Plain, vec![]) };
         let mut dyn_t = pre1.clone();
         dyn_t.push(text(OPEN));
@@ -272,7 +293,9 @@ fn metamorphic(ctx: &mut Ctx) {
             ctx.emit(render_case("c08", &kind, &dyn_t, &data_dyn, &partials, &o_dyn));
             continue;
         }
-        if let Some(u) = unrolled {
+        // (the `for … as` form gives the partial a `forloop`, the `with` form does not: partials that look
+        // at it — or at the `parentloop` of their own loops — legitimately tell the two apart)
+        if let Some(u) = unrolled.filter(|_| !looks_at_loop) {
             let mut d = pre1.clone();
             d.push(text(OPEN));
             d.extend(u);
@@ -294,6 +317,15 @@ fn metamorphic(ctx: &mut Ctx) {
             if let (Some(x), Some(y)) = (between(&oa, OPEN, CLOSE), between(&oc, OPEN, CLOSE)) {
                 if x != y {
                     kind = "ARGS-ONLY".into();
+                }
+            }
+        }
+        if kind == "meta" {
+            if let (Some(x), Some(y)) = (between(&oa, OPEN, CLOSE), between(&oc2, OPEN, CLOSE)) {
+                if x != y {
+                    // report the caller with the loop: that is where the rendered text differs
+                    ctx.emit(render_case("c08", "ARGS-ONLY", &c2, &data, &partials, &oc2));
+                    continue;
                 }
             }
         }
